@@ -10,8 +10,8 @@ import Altrios.Powertrain
   (`argmin::GoldenSectionSearch`, on CLONES of the locomotive) — an external call, hence a
   PARAMETER `split` of the model: the theorems hold for every value the search may return, the
   correspondence passes the value the implementation ended the step with.  The interval handed to
-  the search (`gssBounds`) and the shortcut taken when it is narrower than 0.05 (`gssMean`) are
-  modelled; the search itself is not.
+  the search (`gssBounds`) is modelled; the search itself, and the mean the code takes instead when
+  the interval is narrower than 0.05, are not (both only yield a value of `split`).
 
   `genAux` is the literal `50e3 * uc::W` the code passes as the generator's auxiliary load
   ("todo: fix this" in the source).
